@@ -11,6 +11,7 @@ precision; parse(export(parse(export(D)))) has the vocabulary and structure of p
 """
 import glob
 import os
+import re
 
 from .. import sexp
 from ..absmap import abs_domain, AbsError
@@ -60,6 +61,8 @@ def cases(tier):
                 continue
             if "fine" in p["tags"]:
                 continue  # constants with > 4 decimals are not representable at the exporter's precision (outside the quantifier)
+            if re.search(r"\d\.\d{3,}", p["pre"]):
+                continue  # a condition constant with > 2 decimals is not representable at the exporter's precision either
             if tier == "quick" and ("pre" in p["tags"] or p["tags"][0] in ("and3", "e3", "when+when")
                                     or "when+when" in p["tags"]):
                 continue
